@@ -26,6 +26,11 @@ func setup(repo string) (*Universe, *SpecTables, error) {
 	if err != nil {
 		return nil, nil, err
 	}
+	// function summaries extend the prelude
+	sums := u.buildSummaries()
+	u.BasePrelude += "; ---- function summaries (generated from the symbolic execution of the real bodies) ----\n" + sums
+	u.Prelude += sums
+	u.SpecDefs = parseSpecDefs(u.BasePrelude)
 	return u, st, nil
 }
 
